@@ -280,7 +280,8 @@ def rejection_sample_helper(
         with tb.open_file(prior_samples_file, mode="r") as f:
             data = f.root[JokerSamples._hdf5_path]
             samples["ln_prior"] = np.repeat(
-                data.read_coordinates(full_samples_idx), n_linear_samples
+                data.read_coordinates(full_samples_idx, field="ln_prior"),
+                n_linear_samples,
             )
 
     if return_all_logprobs:
